@@ -58,6 +58,15 @@ def generate(rng, n=None):
         elif r < 0.42:
             name = "T_" + sfx
             sp, need = pick_type()
+            if rng.random() < 0.3:
+                # typedef of a function pointer: its parameter / return types are needed like any member type
+                sp2, need2 = pick_type()
+                rsp, need3 = pick_type(allow_void=True)
+                it = Item("type", name, "typedef %s (*%s)(%s a, %s b);" % (rsp, name, sp, sp2), [n_ for n_ in (need, need2, need3) if n_])
+                it.sub = "typedef"
+                items.append(it)
+                types.append((name, name))
+                continue
             it = Item("type", name, "typedef %s %s;" % (sp, name), [need] if need else [])
             it.sub = "typedef"
             items.append(it)
